@@ -365,6 +365,23 @@ theorem special_digit_string_is_number :
       = .num ⟨false, [18, 23, 15], [], 0⟩ 3 ∧
     grammarFloatComplete {} Format.standard { exp := 105 } [105, 110, 102] = .inf false 3 := by decide +kernel
 
+/-- `flag_no_required_mantissa_digits`: decimal, only exponent digits required -/
+def fmtNoReqMant : Format := ⟨0xa0a0a00000000000000000000000004⟩
+
+/-- **finding** (`NotNumberStart.notPoint` cannot be dropped): nothing relates the special strings to the punctuation
+characters — `nan_string = "N"` and `decimal_point = 'N'` are each valid and pass every check.  In a format that does
+not require mantissa digits, the text `N` written for NaN is the number `.` (no digits: zero), for the grammar and
+for the parser (replayed on the implementation: `ok 0`).  With mantissa digits required the same text is NaN. -/
+theorem finding_special_is_point :
+    FormatValid featsRF (unpack fmtNoReqMant.raw) ∧
+    OptionsAgree featsRF fmtNoReqMant { nan := some [78], dp := 78 } { nan := some [78], dp := 78 } ∧
+    (Syn.of featsRF fmtNoReqMant).noSpecial = false ∧
+    writerSign featsRF fmtNoReqMant (true && !true) ++ [78] = [78] ∧
+    grammarFloatComplete featsRF fmtNoReqMant { nan := some [78], dp := 78 } [78] = .num ⟨false, [], [], 0⟩ 1 ∧
+    grammarFloatComplete featsRF ⟨0xa0a0a0000000000000000000000000c⟩ { nan := some [78], dp := 78 } [78] = .nan 1 := by
+  refine ⟨by unfold FormatValid; decide, ⟨rfl, rfl, rfl, rfl, by decide, by decide, by decide, by decide⟩,
+    by decide, by decide +kernel, by decide +kernel, by decide +kernel⟩
+
 /-! ## signed zero -/
 
 /-- **`roundtrip_signed_zero`** — `±0` (digits `[0]`, exponent 0) in whatever notation the format and options select
